@@ -682,9 +682,9 @@ func (sema *ExprSemanticsChecker) checkArrayDeref(n *ArrayDerefNode) ExprType {
 		// For strict object at receiver of .*
 		found := false
 		for _, t := range ty.Props {
-			if _, ok := t.(*ObjectType); ok {
+			switch t.(type) {
+			case *ObjectType, AnyType: // a value of unknown type may be an object
 				found = true
-				break
 			}
 		}
 		if !found {
